@@ -128,10 +128,9 @@ func registryInvariants(n *chain.Node) string {
 		add(staking.NewAddress(nd.EntityID), registry.StakeClaimForNode(nd.ID), registry.StakeThresholdsForNode(nd, rts))
 	}
 	for _, rt := range runtimes {
-		if rt.GovernanceModel == registry.GovernanceConsensus {
-			continue
+		if a, ok := rt.StakingAddress(); ok {
+			add(*a, registry.StakeClaimForRuntime(rt.ID), registry.StakeThresholdsForRuntime(rt))
 		}
-		add(staking.NewAddress(rt.EntityID), registry.StakeClaimForRuntime(rt.ID), registry.StakeThresholdsForRuntime(rt))
 	}
 	addrs, _ := ss.Addresses(chain.Ctx)
 	seen := map[staking.Address]bool{}
@@ -175,38 +174,119 @@ func gotID(n *node.Node) string {
 }
 
 type c17Artefact struct {
+	Universe int     `json:"universe,omitempty"`
 	Prefix  int      `json:"empty_blocks_before"`
 	History []string `json:"history"`
 }
 
-func runC17(r *ev.Run) {
+type c17Universe struct {
+	w           *world
+	alpha       []letter
+	byName      map[string]int
+	wrongSigner map[string]bool
+}
+
+func c17Universes(r *ev.Run) []*c17Universe {
+	var us []*c17Universe
 	// Every block is an epoch, so that expiry, removal and re-registration are within reach.
-	w, err := newWorld(chain.GenesisOptions{EpochInterval: 1, NodeExpirations: []uint64{12, 3, 12}})
-	if err != nil {
-		r.HarnessError("world: %v", err)
-		r.Finish()
-	}
-	txs := w.registryTxs()
-	st := w.stakingTxs()
-	var alpha []letter
-	alpha = append(alpha, letter{Name: "empty-block"})
-	for _, t := range txs {
-		alpha = append(alpha, letter{Name: t.Name, Txs: []txT{t}})
-	}
-	for _, t := range st {
-		if t.Name == "reclaim(e1<-e1,1000sh)" || t.Name == "escrow(a0->e0,50)" || t.Name == "reclaim(a0<-e0,500sh=all)" {
-			alpha = append(alpha, letter{Name: t.Name, Txs: []txT{t}})
+	for ui, o := range []chain.GenesisOptions{
+		{EpochInterval: 1, NodeExpirations: []uint64{12, 3, 12}},
+		{EpochInterval: 1, NodeExpirations: []uint64{12, 3, 12}, Runtime: true},
+	} {
+		w, err := newWorld(o)
+		if err != nil {
+			r.HarnessError("world: %v", err)
+			r.Finish()
 		}
+		u := &c17Universe{w: w, byName: map[string]int{}, wrongSigner: map[string]bool{}}
+		txs := w.registryTxs()
+		st := w.stakingTxs()
+		u.alpha = append(u.alpha, letter{Name: "empty-block"})
+		if ui == 0 {
+			for _, t := range txs {
+				u.alpha = append(u.alpha, letter{Name: t.Name, Txs: []txT{t}})
+			}
+		} else {
+			for _, t := range w.runtimeTxs() {
+				if t.Method == registry.MethodRegisterRuntime {
+					u.alpha = append(u.alpha, letter{Name: t.Name, Txs: []txT{t}})
+				}
+			}
+			for _, t := range txs {
+				switch t.Name {
+				case "node0-renew(exp6)", "node1 expired descriptor(exp1)", "entity0-deregister (has node)", "entity1-update nodes=[1,3]", "node3-new for e1", "node2 roles=validator->observer":
+					u.alpha = append(u.alpha, letter{Name: t.Name, Txs: []txT{t}})
+				}
+			}
+		}
+		for _, t := range st {
+			if t.Name == "reclaim(e1<-e1,1000sh)" || t.Name == "escrow(a0->e0,50)" || t.Name == "reclaim(a0<-e0,500sh=all)" {
+				u.alpha = append(u.alpha, letter{Name: t.Name, Txs: []txT{t}})
+			}
+		}
+		u.alpha = append(u.alpha, letter{Name: "evidence=dupvote:0", Evidence: "dupvote:0"})
+		for i, l := range u.alpha {
+			u.byName[l.Name] = i
+		}
+		for _, nm := range []string{"node0-renew tx-signed-by-entity", "node0-renew tx-signed-by-node1", "entity0-update signed-by-e1", "entity0-update tx-by-e1 desc-by-e0", "unfreeze node1 by e0 (wrong entity)", "runtime-new(a0 no entity)"} {
+			u.wrongSigner[nm] = true
+		}
+		for _, nm := range []string{"node", "p2p", "consensus", "vrf", "tls"} {
+			u.wrongSigner["node0-renew missing-sig-"+nm] = true
+		}
+		us = append(us, u)
 	}
-	alpha = append(alpha, letter{Name: "evidence=dupvote:0", Evidence: "dupvote:0"})
-	byName := map[string]int{}
-	for i, l := range alpha {
-		byName[l.Name] = i
+	return us
+}
+
+// runtimeAuthority: a RegisterRuntime transaction may only succeed for a new runtime whose
+// entity is the signer, or for an existing entity-governed runtime owned by the signer.
+func runtimeAuthority(n *chain.Node, t *txT) string {
+	rt, ok := t.Body.(*registry.Runtime)
+	if !ok || n.Height == 0 {
+		return "" // before the first commit the genesis state cannot be read back
 	}
-	wrongSigner := map[string]bool{"node0-renew tx-signed-by-entity": true, "node0-renew tx-signed-by-node1": true, "entity0-update signed-by-e1": true, "entity0-update tx-by-e1 desc-by-e0": true, "unfreeze node1 by e0 (wrong entity)": true}
-	for _, nm := range []string{"node", "p2p", "consensus", "vrf", "tls"} {
-		wrongSigner["node0-renew missing-sig-"+nm] = true
+	tr := n.Tree()
+	defer tr.Close()
+	old, err := registryState.NewImmutableState(tr).AnyRuntime(chain.Ctx, rt.ID)
+	signer := t.Signer.Public()
+	if err != nil || old == nil {
+		if !rt.EntityID.Equal(signer) {
+			return fmt.Sprintf("a new runtime of entity %s may not be registered by %s", rt.EntityID, signer)
+		}
+		return ""
 	}
+	if old.GovernanceModel != registry.GovernanceEntity {
+		return fmt.Sprintf("runtime %s is under %s governance and may not be updated by a transaction", rt.ID, old.GovernanceModel)
+	}
+	if !old.EntityID.Equal(signer) {
+		return fmt.Sprintf("runtime %s is owned by entity %s and may not be updated by %s", rt.ID, old.EntityID, signer)
+	}
+	return ""
+}
+
+func runC17(r *ev.Run) {
+	unis := c17Universes(r)
+	depth := 2
+	prefixes := []int{0, 2, 3, 4}
+	if r.Thorough() {
+		depth = 3
+		prefixes = []int{0, 1, 2, 3, 4, 5, 6}
+	}
+	for ui, u := range unis {
+		runC17Universe(r, ui, u, depth, prefixes)
+	}
+	r.Set("depth", depth)
+	r.Set("prefixes_epochs", prefixes)
+	r.Set("universes", len(unis))
+	r.Alias("traces_validated_against_impl", "transitions")
+	r.Set("rule", "breadth-first search over registry histories (epoch = 1 block, stake not bypassed) from 0..8 elapsed epochs: entity register / update / deregister; node re-registration, every pairwise swap and the rotation of the node's own P2P/TLS/VRF keys, keys of another node, fresh keys, a changed consensus key, descriptors missing each signature in turn, transactions signed by entity / other node / other entity, expired and too-far expirations, role change, new nodes listed and not listed by their entity, unfreeze by right and wrong entity, stake moving across thresholds, a slash; second universe with a compute runtime served by all nodes: runtime updates by owner / non-owner, ownership transfer, entity -> runtime governance, kind change, new runtimes under entity and runtime governance, by a non-entity; after every block: every registered node is found under each of its current keys and its consensus address, no key belongs to two nodes, nodes-by-entity equals the recomputed index, every node's entity exists, every account's stake claims (entity accounts and runtime accounts) equal exactly those implied by entities, nodes and runtimes; transactions lacking authority have a non-zero result; a successful RegisterRuntime was signed by the owner of an entity-governed runtime or by the entity of a new runtime")
+	r.Assume("TEE nodes and key manager runtimes are not generated", "3 entities, 5 node identities, at most 2 runtimes")
+	r.Finish()
+}
+
+func runC17Universe(r *ev.Run, ui int, u *c17Universe, depth int, prefixes []int) {
+	w, alpha, byName, wrongSigner := u.w, u.alpha, u.byName, u.wrongSigner
 	specs := []rspec{{Name: "P/badger", Path: chain.PathPropose, Backend: "badger"}, {Name: "P1/pathbadger", Path: chain.PathPropose, Backend: "pathbadger", Ident: 1}}
 	run := func(prefix int, h []int) (key, what string) {
 		b, err := w.newBundle(specs)
@@ -230,6 +310,10 @@ func runC17(r *ev.Run) {
 		}
 		for i, li := range h {
 			l := &alpha[li]
+			authWhy := ""
+			if len(l.Txs) == 1 && l.Txs[0].Method == registry.MethodRegisterRuntime {
+				authWhy = runtimeAuthority(b.ref(), &l.Txs[0])
+			}
 			out, err := b.exec(l)
 			if err != nil {
 				return "", "harness: " + err.Error()
@@ -243,6 +327,9 @@ func runC17(r *ev.Run) {
 			}
 			if len(l.Txs) == 1 && wrongSigner[l.Name] && res.TxResults[0].Code == 0 {
 				return "", fmt.Sprintf("block %d: %s succeeded although it lacks the required authority", i+1, l.Name)
+			}
+			if authWhy != "" && res.Panic == "" && len(res.TxResults) > 0 && res.TxResults[0].Code == 0 {
+				return "", fmt.Sprintf("block %d: %s succeeded although %s", i+1, l.Name, authWhy)
 			}
 			if wv := registryInvariants(b.ref()); wv != "" {
 				return "", fmt.Sprintf("after block %d (%s): %s", i+1, l.Name, wv)
@@ -259,6 +346,9 @@ func runC17(r *ev.Run) {
 		bb, _ := json.Marshal(v.Artefact)
 		var a c17Artefact
 		_ = json.Unmarshal(bb, &a)
+		if a.Universe != ui {
+			return
+		}
 		var h []int
 		for _, nm := range a.History {
 			h = append(h, byName[nm])
@@ -271,17 +361,11 @@ func runC17(r *ev.Run) {
 		fmt.Println("replay: property held")
 		os.Exit(0)
 	}
-	depth := 2
-	prefixes := []int{0, 2, 3, 4}
-	if r.Thorough() {
-		depth = 3
-		prefixes = []int{0, 1, 2, 3, 4, 5, 6}
-	}
 	var names []string
 	for _, l := range alpha {
 		names = append(names, l.Name)
 	}
-	r.Set("alphabet", names)
+	r.Set(fmt.Sprintf("alphabet_universe_%d", ui), names)
 	for _, prefix := range prefixes {
 		frontier := [][]int{{}}
 		seen := map[string]bool{}
@@ -311,7 +395,7 @@ func runC17(r *ev.Run) {
 						r.HarnessError("%s %v", what, hn)
 						return
 					}
-					r.Violate(ev.Violation{Engine: "chainmc", Key: fmt.Sprintf("c17 after %d epochs [%s]", prefix, strings.Join(hn, " | ")), What: fmt.Sprintf("%d empty blocks (= epochs), then [%s]: %s", prefix, strings.Join(hn, " | "), what), Artefact: c17Artefact{Prefix: prefix, History: hn}})
+					r.Violate(ev.Violation{Engine: "chainmc", Key: fmt.Sprintf("c17 %safter %d epochs [%s]", map[int]string{0: "", 1: "runtime universe "}[ui], prefix, strings.Join(hn, " | ")), What: fmt.Sprintf("%d empty blocks (= epochs), then [%s]: %s", prefix, strings.Join(hn, " | "), what), Artefact: c17Artefact{Universe: ui, Prefix: prefix, History: hn}})
 					return
 				}
 				if key == "" {
@@ -332,10 +416,4 @@ func runC17(r *ev.Run) {
 		}
 		r.Add("states", int64(len(seen)))
 	}
-	r.Set("depth", depth)
-	r.Set("prefixes_epochs", prefixes)
-	r.Alias("traces_validated_against_impl", "transitions")
-	r.Set("rule", "breadth-first search over registry histories (epoch = 1 block, stake not bypassed) from 0..8 elapsed epochs: entity register / update / deregister; node re-registration, every pairwise swap and the rotation of the node's own P2P/TLS/VRF keys, keys of another node, fresh keys, a changed consensus key, descriptors missing each signature in turn, transactions signed by entity / other node / other entity, expired and too-far expirations, role change, new nodes listed and not listed by their entity, unfreeze by right and wrong entity, stake moving across thresholds, a slash; after every block: every registered node is found under each of its current keys and its consensus address, no key belongs to two nodes, nodes-by-entity equals the recomputed index, every node's entity exists, every account's stake claims equal exactly those implied by entities, nodes and runtimes; transactions lacking authority have a non-zero result")
-	r.Assume("runtime registrations and TEE nodes are not generated", "3 entities, 5 node identities")
-	r.Finish()
 }
